@@ -152,9 +152,14 @@ public:
 				   assert(entry <= catalogs[catalog].size());
 				   if (entry > 0)
 				     return catalogs[catalog][entry-1].start_sector();
-				   if (catalog == catalogs.size()-1)
-				     return root.total_sectors();
-				   return catalogs[catalog+1].back().start_sector();
+				   // The next file on the disc is the last entry
+				   // of the next non-empty catalog, if any.
+				   for (auto next = catalog + 1; next < catalogs.size(); ++next)
+				     {
+				       if (!catalogs[next].empty())
+					 return catalogs[next].back().start_sector();
+				     }
+				   return root.total_sectors();
 				 };
 	std::vector<unsigned int> gaps;
 	auto maybe_gap = [&gaps](DFS::sector_count_type last,
